@@ -787,7 +787,7 @@ def decorate_with_checker(func: CallableT) -> CallableT:
                 violation_error = await _assert_preconditions_async(
                     preconditions=preconditions, resolved_kwargs=resolved_kwargs
                 )
-                if violation_error:
+                if violation_error is not None:
                     raise violation_error
 
                 # Capture the snapshots
@@ -811,7 +811,7 @@ def decorate_with_checker(func: CallableT) -> CallableT:
                     violation_error = await _assert_postconditions_async(
                         postconditions=postconditions, resolved_kwargs=resolved_kwargs
                     )
-                    if violation_error:
+                    if violation_error is not None:
                         raise violation_error
 
                 return result
@@ -861,7 +861,7 @@ def decorate_with_checker(func: CallableT) -> CallableT:
                     resolved_kwargs=resolved_kwargs,
                     func=func,
                 )
-                if violation_error:
+                if violation_error is not None:
                     raise violation_error
 
                 # Capture the snapshots
@@ -887,7 +887,7 @@ def decorate_with_checker(func: CallableT) -> CallableT:
                         resolved_kwargs=resolved_kwargs,
                         func=func,
                     )
-                    if violation_error:
+                    if violation_error is not None:
                         raise violation_error
 
                 return result
